@@ -87,11 +87,28 @@ def requirement(prog, name):
     return False, 'unknown requirement'
 
 
+def _present_keys(prog):
+    out = set()
+    for b in prog.bodies.values():
+        if not in_scope(b):
+            continue
+        for cs in b.calls():
+            if ITER.match(cs.name) and cs.argtys:
+                c = container(cs.argtys[0])
+                if c:
+                    out.add('%s|%s|%s' % (b.key, cs.name, c))
+    return out
+
+
 def run(ctx):
     rep = Report('C17')
     prog = mirlib.load_program([ws_facts('ws')])
     seen_keys = set()
     nfx = 0
+    # audited entries whose function no longer has that iteration (renamed / the loop moved into a helper) may re-attach
+    # to the same method over the same container type elsewhere in the same top-level module, once each
+    present = _present_keys(prog)
+    orphans = [k for k in AUDITED if k not in present]
     for b in sorted(prog.bodies.values(), key=lambda b: b.id):
         if not in_scope(b):
             continue
@@ -107,6 +124,15 @@ def run(ctx):
                     key = '%s|%s|%s' % (b.key, cs.name, c)
                     seen_keys.add(key)
                     a = AUDITED.get(key)
+                    if a is None:
+                        tail = '|'.join(key.split('|')[1:])
+                        top = key.split('::')[0].lstrip('<')
+                        for o in orphans:
+                            if '|'.join(o.split('|')[1:]) == tail and o.split('::')[0].lstrip('<') == top:
+                                a = AUDITED[o]
+                                orphans.remove(o)
+                                seen_keys.add(o)
+                                break
                     if a is None:
                         rep.bad('R17.a', 'R17.a|' + key, cs.loc(), 'iteration (%s) over %s, whose order differs between processes (per-process hash seed), is not audited as order-insensitive or sorted before use: generated output may differ from run to run' % (cs.name, c))
                         continue
